@@ -18,7 +18,7 @@ MANIFEST = {
 }
 
 COMPLEX_OK = {"mass", "stiff", "coefmass", "xmass", "cten", "divdiv", "curlcurl", "mixeddiv", "load", "gradload",
-              "energy", "conv", "deriv", "tworules", "cplx", "xint", "mathfn", "cmathfn"}
+              "energy", "conv", "deriv", "tworules", "cplx", "xint", "mathfn", "cmathfn", "ccond", "sesq"}
 
 
 def run(chk):
@@ -26,19 +26,36 @@ def run(chk):
     cases = s5.enumerate_formspace(chk, complex_terms=True)
     pool = [c for c in cases if c["term"] in COMPLEX_OK]
     sel = s5.sample_cases(pool, 14 if quick else 150, chk.seed, max_cost=25 if quick else 200)
-    cpl = s5.sample_cases([c for c in pool if c["term"] in ("cplx", "cmathfn")], 6 if quick else 60, chk.seed + 1, max_cost=25 if quick else 200)
-    cpl += s5.sample_cases([c for c in pool if c["term"] == "mathfn"], 3 if quick else 30, chk.seed + 2, max_cost=25 if quick else 200)
+    cpl = s5.sample_cases([c for c in pool if c["term"] in ("cplx", "cmathfn", "ccond")], 8 if quick else 60, chk.seed + 1, max_cost=25 if quick else 200)
+    cpl += s5.sample_cases([c for c in pool if c["term"] in ("mathfn", "sesq")], 5 if quick else 40, chk.seed + 2, max_cost=25 if quick else 200)
     items = []
     for i, c in enumerate(sel + cpl):
         seed = chk.seed * 100003 + i
-        for sc in (("complex64", "complex128") if c["term"] in ("cplx", "cmathfn") else ("float32", "float64", "complex64", "complex128")):
+        for sc in (("complex64", "complex128") if c["term"] in ("cplx", "cmathfn", "ccond") else ("float32", "float64", "complex64", "complex128")):
             # the same seed -> the same geometry; real data for all four types
             items.append({"case": c, "seed": seed, "scalar": sc, "ninputs": 1 if quick else 2, "realdata": True,
                           "label": s5.case_label(c) + f"|{sc}|real"})
         for sc in ("complex64", "complex128"):
             items.append({"case": c, "seed": seed + 7, "scalar": sc, "ninputs": 1 if quick else 2,
                           "label": s5.case_label(c) + f"|{sc}|complex"})
+    # histories: one and the same UFL form object compiled for several scalar types in one process
+    hist = s5.sample_cases([c for c in pool if c["term"] in ("cplx", "sesq", "cten")], 5 if quick else 30, chk.seed + 3, max_cost=25)
+    hist += [c for c in s5.sample_cases([c for c in pool if c["term"] == "sesq"], 2, chk.seed + 4, max_cost=25) if c not in hist]
+    for i, c in enumerate(hist):
+        seed = chk.seed * 100003 + 300 + i
+        cplx_only = c["term"] == "cplx"
+        orders = [(["complex128"], "complex64")] if cplx_only else [(["float64"], "complex128"), (["complex128"], "float64"), (["float32", "complex64"], "float64")]
+        for pre, sc in orders:
+            items.append({"case": c, "seed": seed + 11, "scalar": sc, "ninputs": 1, "pre_compile": pre,
+                          "label": s5.case_label(c) + f"|{sc}|after:{'+'.join(pre)}"})
     recs = s5.run_items(chk, items, nworkers=4 if quick else 6)
+    for r in recs:
+        if r["status"] == "skipped" and r.get("history_error"):
+            it = items[r["item"]]
+            chk.violation(f"history:{it['case']['term']}:{it['scalar']}:after:{'+'.join(it['pre_compile'])}",
+                          f"{it['label']}: compiling the same form object for {it['scalar']} after {it['pre_compile']} fails: {r['why'][:300]}", {"item": it})
+            r["ffcx_error"] = False
+            r["why"] = "out of model: reported as history failure"
     nz = s5.report(chk, items, recs)
     types = {lab.split("|")[1] for (lab, *_r) in nz}
     chk.add(distinct_nontrivial=len(nz), scalar_types=sorted(types),
